@@ -232,9 +232,7 @@ func exploreRunner(r *ev.Run, maxDepth, workers int) {
 	var next []aState
 	var nStates atomic.Int64
 	add := func(img *memory.Database, c uint64, depth int, trace string) {
-		if memGuard(r) {
-			return
-		}
+		// (no memory guard here: runner images hold <= 5 keys; the guard protects part b's frontiers)
 		k := key{faultdb.Hash(img), c}
 		mu.Lock()
 		defer mu.Unlock()
